@@ -495,6 +495,7 @@ func judgePythonFile(j *pyJob, e *expected, data []byte, rep *core.Report) strin
 	// Info against the reference decoder's view of the summary
 	var info *mcap.Info
 	var ierr error
+	raProblem := ""
 	p := core.Safe(func() {
 		r, err := mcap.NewReader(bytes.NewReader(data))
 		if err != nil {
@@ -503,12 +504,53 @@ func judgePythonFile(j *pyJob, e *expected, data []byte, rep *core.Report) strin
 		}
 		defer r.Close()
 		info, ierr = r.Info()
+		if ierr != nil {
+			return
+		}
+		// follow the metadata and attachment indexes Python wrote (they are listed in write order)
+		if len(info.MetadataIndexes) == len(e.metadata) {
+			for k, mi := range info.MetadataIndexes {
+				md, err := r.GetMetadata(mi.Offset)
+				if err != nil {
+					raProblem = fmt.Sprintf("Go GetMetadata at the offset of Python's metadata index %d (%q) failed: %v", k, mi.Name, err)
+					return
+				}
+				if drive.CanonMetadata(md) != e.metadata[k] {
+					raProblem = fmt.Sprintf("Go GetMetadata at the offset of Python's metadata index %d returns %s, written was %s", k, drive.Describe(drive.CanonMetadata(md)), drive.Describe(e.metadata[k]))
+					return
+				}
+			}
+			rep.Count("python_metadata_indexes_followed_by_go", int64(len(info.MetadataIndexes)))
+		}
+		if len(info.AttachmentIndexes) == len(e.attachments) {
+			for k, ai := range info.AttachmentIndexes {
+				ar, err := r.GetAttachmentReader(ai.Offset)
+				if err != nil {
+					raProblem = fmt.Sprintf("Go GetAttachmentReader at the offset of Python's attachment index %d (%q) failed: %v", k, ai.Name, err)
+					return
+				}
+				d, err := io.ReadAll(ar.Data())
+				if err != nil {
+					raProblem = fmt.Sprintf("Go read of the attachment designated by Python's attachment index %d failed: %v", k, err)
+					return
+				}
+				got := drive.AttachmentCanon(&refmcap.Attachment{LogTime: ar.LogTime, CreateTime: ar.CreateTime, Name: ar.Name, MediaType: ar.MediaType, Data: d})
+				if got != e.attachments[k] {
+					raProblem = fmt.Sprintf("Go reads a different attachment at the offset of Python's attachment index %d (%q)", k, ai.Name)
+					return
+				}
+			}
+			rep.Count("python_attachment_indexes_followed_by_go", int64(len(info.AttachmentIndexes)))
+		}
 	})
 	if p != nil {
-		return "Go Info panicked: " + p.Error()
+		return "Go Info / random access panicked: " + p.Error()
 	}
 	if ierr != nil {
 		return fmt.Sprintf("Go Info failed: %v", ierr)
+	}
+	if raProblem != "" {
+		return raProblem
 	}
 	if srecs := f.SummaryRecs(refmcap.OpStatistics); len(srecs) == 1 && srecs[0].ParseErr == nil {
 		s := srecs[0].Parsed.(*refmcap.Statistics)
